@@ -321,7 +321,9 @@ class SymDec(Decimal):
     def on_grid(self, prec):
         """is the value a multiple of 10**-prec ?  (python bool or SymBool)"""
         if not _is1(self.d):
-            raise core.HarnessError("on_grid() of an unquantised quotient")
+            # a quotient: on the grid iff truncating it to the grid changes nothing
+            t = self.quantize(Decimal(1).scaleb(-prec), rounding=decimal.ROUND_DOWN)
+            return self == t
         if self.x >= -prec:
             return True
         m = 10 ** (-prec - self.x)
@@ -438,6 +440,9 @@ def D(x):
     """Decimal constructor that lets proxies through"""
     if isinstance(x, SymDec):
         return x
+    from .strtok import SymStr
+    if isinstance(x, SymStr):
+        return x.dec            # Decimal("<numeric string>") of a payload cell that stands for a symbolic decimal
     from .num import SymReal, SymInt
     if isinstance(x, SymInt):
         return SymDec(L.lin(x.e), 0)
